@@ -282,6 +282,8 @@ func registerFSStubs(ex *Exec) {
 		isAbsent := smt.Eq(nodeKind(n), smt.Const(8, fsAbsent))
 		info := ex.newOpaque("FileInfo")
 		info.Data["isdir"] = smt.Eq(nodeKind(n), smt.Const(8, fsDir))
+		info.Data["size"] = n.F[1]
+		info.Data["name"] = ConcreteStr(filepath.Base(filepath.Clean(p)))
 		return &TupleV{E: []Value{mergeV(isAbsent, Value(Nil), Value(&IfaceV{T: nil, V: info})), mergeV(isAbsent, ex.fsErr(st, true), Value(Nil))}}
 	}
 	S["FileInfo.IsDir"] = func(ex *Exec, st *State, site ssa.Instruction, fn *ssa.Function, args []Value) Value {
@@ -417,6 +419,12 @@ func registerFSStubs(ex *Exec) {
 			steps = append(steps, walkStep{path: p, guard: vis, isDir: smt.Eq(nodeKind(n), smt.Const(8, fsDir))})
 		}
 		return ex.walkSteps(st, site, steps, cb)
+	}
+	S["FileInfo.Size"] = func(ex *Exec, st *State, site ssa.Instruction, fn *ssa.Function, args []Value) Value {
+		if sz, ok := args[0].(*Opaque).Data["size"]; ok {
+			return sz
+		}
+		panic(unsupported("FileInfo.Size of an entry without recorded size"))
 	}
 	S["FileInfo.Name"] = func(ex *Exec, st *State, site ssa.Instruction, fn *ssa.Function, args []Value) Value {
 		return args[0].(*Opaque).Data["name"]
